@@ -804,7 +804,7 @@ impl Prop for C13 {
     fn plan(&self, tier: Tier) -> Plan {
         let mut p = Plan::new(match tier {
             Tier::Quick => 15000,
-            Tier::Thorough => 40_000,
+            Tier::Thorough => 150_000,
         });
         p.workers = 10;
         p.repeats = 2;
